@@ -118,11 +118,16 @@ class DefaultXMLParser:
 
         self.logger.debug("parsing netconf v1.0")
         buf = self._session._buffer
+        # The delimiter is searched on the octets: the buffer may end (and
+        # the look-back position may fall) inside a multi-byte character,
+        # so only a complete frame can be decoded. The delimiter is ASCII,
+        # its octets never occur inside a multi-byte UTF-8 sequence.
+        delim = MSG_DELIM.encode()
         buf.seek(self._parsing_pos10)
-        if MSG_DELIM in buf.read().decode('UTF-8'):
+        if delim in buf.read():
             buf.seek(0)
-            msg, _, remaining = buf.read().decode('UTF-8').partition(MSG_DELIM)
-            msg = msg.strip()
+            msg, _, remaining = buf.read().partition(delim)
+            msg = msg.decode('UTF-8').strip()
             self._session._dispatch_message(msg)
             self._session._buffer = StringIO()
             self._parsing_pos10 = 0
@@ -131,10 +136,10 @@ class DefaultXMLParser:
                 # buffer, so we should try to parse again.
                 if type(self._session.parser) != DefaultXMLParser:
                     self.logger.debug('send remaining data to SAX parser')
-                    self._session.parser.parse(remaining.encode())
+                    self._session.parser.parse(remaining)
                 else:
                     self.logger.debug('Trying another round of parsing since there is still data')
-                    self._session._buffer.write(remaining.encode())
+                    self._session._buffer.write(remaining)
                     self._parse10()
         else:
             # handle case that MSG_DELIM is split over two chunks
